@@ -8,6 +8,7 @@ import (
 	"path/filepath"
 	"reflect"
 	"regexp"
+	"sort"
 	"strconv"
 	"strings"
 	"sync"
@@ -2220,15 +2221,46 @@ func (te *TemplateEngine) replaceVariablesSequentially(originalRunInfos []struct
 		return te.processConditionals(originalRunInfos, originalText, data)
 	}
 
+	spans := make([]templateSpan, 0, len(varMatches))
+	for _, varMatch := range varMatches {
+		span := templateSpan{start: varMatch[0], end: varMatch[1]}
+		if value, exists := data.Variables[originalText[varMatch[2]:varMatch[3]]]; exists {
+			span.replace = true
+			span.value = te.interfaceToString(value)
+		}
+		spans = append(spans, span)
+	}
+
+	newRuns, hasChanges := te.substituteSpans(originalRunInfos, originalText, spans)
+
+	// 如果没有任何变量被替换，处理条件语句
+	if !hasChanges {
+		return te.processConditionals(originalRunInfos, originalText, data)
+	}
+
+	// 对结果处理条件语句（但要保持每个Run的独立性）
+	return te.processConditionalsPreservingRuns(newRuns, data), true
+}
+
+// templateSpan 段落合并文本中的一个占位符 [start, end)：
+// replace 为true时用 value 替换（value 为空即删除，例如循环标记），否则保持原样
+type templateSpan struct {
+	start, end int
+	value      string
+	replace    bool
+}
+
+// substituteSpans 按Run逐段重建段落：占位符之外的文本保持各自Run的样式，
+// 替换文本使用占位符第一个字符所在Run的样式，不含文本的Run保留在原位置。
+// spans 必须按位置升序排列且互不重叠
+func (te *TemplateEngine) substituteSpans(originalRunInfos []templateRunInfo, originalText string, spans []templateSpan) ([]Run, bool) {
 	newRuns := make([]Run, 0)
 	currentPos := 0
 	hasChanges := false
 
-	for _, varMatch := range varMatches {
-		varStart := varMatch[0]
-		varEnd := varMatch[1]
-		varNameStart := varMatch[2]
-		varNameEnd := varMatch[3]
+	for _, span := range spans {
+		varStart := span.start
+		varEnd := span.end
 
 		// 添加变量前的文本（保持原样式）
 		if varStart > currentPos {
@@ -2237,23 +2269,19 @@ func (te *TemplateEngine) replaceVariablesSequentially(originalRunInfos []struct
 			newRuns = append(newRuns, beforeRuns...)
 		}
 
-		// 处理变量替换
-		varName := originalText[varNameStart:varNameEnd]
-		if value, exists := data.Variables[varName]; exists {
-			replacementText := te.interfaceToString(value)
-
-			// 为变量选择合适的样式（使用覆盖变量位置的Run样式）
-			varRun := te.findRunForPosition(originalRunInfos, varStart)
-			if varRun != nil {
-				// 紧挨在占位符之前的非文本Run保持在替换文本之前
-				newRuns = append(newRuns, te.nonTextRunsBetween(originalRunInfos, varStart, varStart+1)...)
+		// 为变量选择合适的样式（使用覆盖变量位置的Run样式）
+		varRun := te.findRunForPosition(originalRunInfos, varStart)
+		if span.replace && varRun != nil {
+			// 紧挨在占位符之前的非文本Run保持在替换文本之前
+			newRuns = append(newRuns, te.nonTextRunsBetween(originalRunInfos, varStart, varStart+1)...)
+			if span.value != "" {
 				newRun := te.cloneRun(varRun)
-				newRun.Text.Content = replacementText
+				newRun.Text.Content = span.value
 				newRuns = append(newRuns, newRun)
-				// 夹在占位符字符之间的非文本Run不能丢，放在替换文本之后
-				newRuns = append(newRuns, te.nonTextRunsBetween(originalRunInfos, varStart+1, varEnd)...)
-				hasChanges = true
 			}
+			// 夹在占位符字符之间的非文本Run不能丢，放在替换文本之后
+			newRuns = append(newRuns, te.nonTextRunsBetween(originalRunInfos, varStart+1, varEnd)...)
+			hasChanges = true
 		} else {
 			// 变量不存在，保持原始占位符；占位符可能跨越多个不同样式的Run，
 			// 按原Run切分以保持每个字符的原有样式
@@ -2273,17 +2301,6 @@ func (te *TemplateEngine) replaceVariablesSequentially(originalRunInfos []struct
 
 	// 位于全部文本之后的非文本Run
 	newRuns = append(newRuns, te.nonTextRunsBetween(originalRunInfos, len(originalText), len(originalText)+1)...)
-
-	// 如果没有找到任何变量但文本发生了变化，处理条件语句
-	if !hasChanges {
-		return te.processConditionals(originalRunInfos, originalText, data)
-	}
-
-	// 对结果处理条件语句（但要保持每个Run的独立性）
-	if hasChanges {
-		finalRuns := te.processConditionalsPreservingRuns(newRuns, data)
-		return finalRuns, true
-	}
 
 	return newRuns, hasChanges
 }
@@ -2560,83 +2577,8 @@ func (te *TemplateEngine) renderTableTemplate(table *Table, data *TemplateData) 
 		if itemMap, ok := item.(map[string]interface{}); ok {
 			for i := range newRow.Cells {
 				for j := range newRow.Cells[i].Paragraphs {
-					// 合并所有Run的文本
-					fullText := ""
-					originalRuns := newRow.Cells[i].Paragraphs[j].Runs
-					for _, run := range originalRuns {
-						fullText += run.Text.Content
-					}
-
-					// 移除模板语法标记
-					content := fullText
-					content = regexp.MustCompile(`\{\{#each\s+\w+\}\}`).ReplaceAllString(content, "")
-					content = regexp.MustCompile(`\{\{/each\}\}`).ReplaceAllString(content, "")
-
-					// 替换变量
-					for key, value := range itemMap {
-						placeholder := fmt.Sprintf("{{%s}}", key)
-						content = strings.ReplaceAll(content, placeholder, te.interfaceToString(value))
-					}
-
-					// 处理条件语句
-					content = te.renderLoopConditionals(content, itemMap)
-
-					// 重建Run结构，更好地保持样式继承
-					if len(originalRuns) > 0 {
-						// 寻找第一个有实际内容或样式的Run作为样式模板
-						var templateRun *Run
-						for k := range originalRuns {
-							if originalRuns[k].Properties != nil || originalRuns[k].Text.Content != "" {
-								templateRun = &originalRuns[k]
-								break
-							}
-						}
-
-						if templateRun != nil {
-							newRun := te.cloneRun(templateRun)
-							newRun.Text.Content = content
-							newRow.Cells[i].Paragraphs[j].Runs = []Run{newRun}
-						} else {
-							// 使用第一个Run但确保基本样式
-							newRun := te.cloneRun(&originalRuns[0])
-							newRun.Text.Content = content
-							// 确保基本的字体设置
-							if newRun.Properties == nil {
-								newRun.Properties = &RunProperties{}
-							}
-							if newRun.Properties.FontFamily == nil {
-								newRun.Properties.FontFamily = &FontFamily{
-									ASCII:    "仿宋",
-									HAnsi:    "仿宋",
-									EastAsia: "仿宋",
-								}
-							}
-							newRow.Cells[i].Paragraphs[j].Runs = []Run{newRun}
-						}
-					} else {
-						// 如果没有原始Run，创建新的但尝试继承段落样式
-						newRun := Run{
-							Text: Text{Content: content},
-							Properties: &RunProperties{
-								FontFamily: &FontFamily{
-									ASCII:    "仿宋",
-									HAnsi:    "仿宋",
-									EastAsia: "仿宋",
-								},
-								Bold: &Bold{},
-							},
-						}
-
-						// 如果段落有默认的Run属性，尝试继承
-						if len(templateRow.Cells) > i && len(templateRow.Cells[i].Paragraphs) > j {
-							templatePara := &templateRow.Cells[i].Paragraphs[j]
-							if len(templatePara.Runs) > 0 && templatePara.Runs[0].Properties != nil {
-								newRun.Properties = te.cloneRunProperties(templatePara.Runs[0].Properties)
-							}
-						}
-
-						newRow.Cells[i].Paragraphs[j].Runs = []Run{newRun}
-					}
+					// 移除循环标记、替换当前数据项的字段、处理条件语句（逐Run进行，保持各Run的样式）
+					te.renderLoopRowParagraph(&newRow.Cells[i].Paragraphs[j], itemMap)
 				}
 
 				// 处理嵌套表格中的变量替换
@@ -2672,6 +2614,75 @@ func (te *TemplateEngine) renderTableTemplate(table *Table, data *TemplateData) 
 	table.Rows = newRows
 
 	return nil
+}
+
+// renderLoopRowParagraph 渲染循环模板行中的一个段落：移除 {{#each}} / {{/each}} 标记，
+// 用当前数据项的字段替换 {{字段}}，并处理针对数据项的条件语句。
+// 与普通段落一样逐Run替换（占位符可以跨Run），每个Run的样式以及不含文本的Run都保留
+func (te *TemplateEngine) renderLoopRowParagraph(para *Paragraph, itemMap map[string]interface{}) {
+	runInfos, fullText := te.collectTemplateRuns(para)
+	if fullText == "" {
+		return
+	}
+
+	// 循环标记（删除）
+	spans := make([]templateSpan, 0)
+	for _, pattern := range []string{`\{\{#each\s+\w+\}\}`, `\{\{/each\}\}`} {
+		for _, m := range regexp.MustCompile(pattern).FindAllStringIndex(fullText, -1) {
+			spans = append(spans, templateSpan{start: m[0], end: m[1], replace: true})
+		}
+	}
+	// 数据项字段
+	for key, value := range itemMap {
+		placeholder := fmt.Sprintf("{{%s}}", key)
+		for from := 0; ; {
+			idx := strings.Index(fullText[from:], placeholder)
+			if idx < 0 {
+				break
+			}
+			start := from + idx
+			from = start + len(placeholder)
+			spans = append(spans, templateSpan{start: start, end: from, value: te.interfaceToString(value), replace: true})
+		}
+	}
+	sort.SliceStable(spans, func(a, b int) bool { return spans[a].start < spans[b].start })
+	// 去掉与前一个重叠的占位符
+	kept := spans[:0]
+	lastEnd := 0
+	for _, span := range spans {
+		if span.start >= lastEnd {
+			kept = append(kept, span)
+			lastEnd = span.end
+		}
+	}
+
+	newRuns, hasChanges := te.substituteSpans(runInfos, fullText, kept)
+
+	// 处理条件语句：条件块在单个Run之内时逐Run处理；
+	// 跨Run的条件块只能在合并文本上处理，这时退回为单个Run（第一个文本Run的样式）
+	substituted, perRun := "", ""
+	finalRuns := make([]Run, len(newRuns))
+	for i, run := range newRuns {
+		substituted += run.Text.Content
+		run.Text.Content = te.renderLoopConditionals(run.Text.Content, itemMap)
+		perRun += run.Text.Content
+		finalRuns[i] = run
+	}
+	if whole := te.renderLoopConditionals(substituted, itemMap); whole != perRun {
+		// 与 processConditionals 相同的简化处理：位置只对段首的非文本Run有意义
+		finalRuns = te.nonTextRunsBetween(runInfos, 0, 1)
+		newRun := te.cloneRun(te.firstTextRun(runInfos))
+		newRun.Text.Content = whole
+		finalRuns = append(finalRuns, newRun)
+		finalRuns = append(finalRuns, te.nonTextRunsBetween(runInfos, 1, len(fullText)+1)...)
+		hasChanges = true
+	} else if perRun != substituted {
+		hasChanges = true
+	}
+
+	if hasChanges {
+		para.Runs = finalRuns
+	}
 }
 
 // replaceVariablesInRow 替换一个普通表格行（非循环模板行）中的变量，包括嵌套表格
